@@ -14,6 +14,7 @@ from liquid2 import Node
 from liquid2 import Tag
 from liquid2 import TagToken
 from liquid2 import TokenStream
+from liquid2.builtin.expressions import identifier_as_source
 from liquid2.builtin import Identifier
 from liquid2.builtin import parse_parameters
 from liquid2.builtin import parse_positional_and_keyword_arguments
@@ -70,7 +71,7 @@ class MacroNode(Node):
         assert isinstance(self.token, TagToken)
         args = " " + ", ".join(str(p) for p in self.args.values()) if self.args else ""
         return (
-            f"{{%{self.token.wc[0]} macro {self.name}{args} {self.token.wc[1]}%}}"
+            f"{{%{self.token.wc[0]} macro {identifier_as_source(self.name)}{args} {self.token.wc[1]}%}}"
             f"{self.block}"
             f"{{%{self.end_tag_token.wc[0]} endmacro {self.end_tag_token.wc[1]}%}}"
         )
@@ -150,7 +151,7 @@ class CallNode(Node):
         args = " " + ", ".join(
             [*(str(arg) for arg in self.args), *(str(arg) for arg in self.kwargs)]
         )
-        return f"{{%{self.token.wc[0]} call {self.name}{args} {self.token.wc[1]}%}}"
+        return f"{{%{self.token.wc[0]} call {identifier_as_source(self.name)}{args} {self.token.wc[1]}%}}"
 
     def render_to_output(self, context: RenderContext, buffer: TextIO) -> int:
         """Render the node to the output buffer."""
